@@ -3,7 +3,7 @@
     sumor -> OCaml's); N / positive / nat stay Coq's inductives. *)
 Require Extraction.
 Require Import ExtrOcamlBasic.
-From LsmV Require Import Base.Bytes Model.Entry Model.Tree Model.Stream Model.History Model.Cert Model.Marks.
+From LsmV Require Import Base.Bytes Model.Entry Model.Tree Model.Stream Model.History Model.Cert Model.Marks Model.Range Model.Prefix Model.Version Model.Bounds Model.Fifo.
 
 Extraction Language OCaml.
 
@@ -15,4 +15,7 @@ Extraction "../ocaml/model.ml"
   run_stream cstream merge_sorted no_filter
   version_for_snapshot maintenance latest SEQ_MAX
   content_agrees content_diff subset_of_history highest_persisted highest_memtable highest_overall impl_highest_persisted impl_highest_memtable impl_highest
+  sv_range_run sv_range prefix_to_range is_prefix
+  optimize_runs with_new_l0_run with_merge with_moved with_dropped version_inv merge_choice_ok move_choice_ok l0_choice_ok
+  bounds_contains bounds_is_empty drop_range_choose fifo_choose_full
   N.add N.mul N.sub N.eqb N.ltb N.leb N.of_nat N.to_nat.
